@@ -716,24 +716,6 @@ func c15PredTok(r *rand.Rand, maxVal, maxLen int) string {
 	}
 }
 
-// c15KnownBadMS: the two classes of MultisetCombinations inputs on which the current tree is known to be wrong
-// (notes/C15.md, finding F1): a zero multiplicity at index 0, or m[0] == 1 && m[1] == 0, followed by a positive
-// multiplicity. They are generated (a modest share) and are expected to be matched by known_findings.json.
-func c15KnownBadMS(m []int) bool {
-	later := func(i int) bool {
-		for _, v := range m[i+1:] {
-			if v > 0 {
-				return true
-			}
-		}
-		return false
-	}
-	if len(m) >= 1 && m[0] == 0 && later(0) {
-		return true
-	}
-	return len(m) >= 2 && m[0] == 1 && m[1] == 0 && later(1)
-}
-
 // small sizes mostly, the largest allowed size now and then
 func c15Size(r *rand.Rand, max int) int {
 	switch r.Intn(8) {
@@ -830,25 +812,10 @@ func c15Gen(r *rand.Rand, tier string, emit func(string)) {
 			l := r.Intn(7)
 			sum := 0
 			var b strings.Builder
-			m := []int{}
 			for i := 0; i < l; i++ {
 				v := r.Intn(4)
 				sum += v
-				m = append(m, v)
 				fmt.Fprintf(&b, " %d", v)
-			}
-			if c15KnownBadMS(m) && r.Intn(3) != 0 {
-				// keep only a third of the inputs of the known-finding classes
-				if m[0] == 0 {
-					m[0] = 2
-				} else {
-					m[1] = 1
-				}
-				b.Reset()
-				for _, v := range m {
-					fmt.Fprintf(&b, " %d", v)
-				}
-				sum += 2
 			}
 			emit(fmt.Sprintf("it mscomb %d%s", r.Intn(sum+3), b.String()))
 		default: // msperm with at most 8 elements
